@@ -126,7 +126,7 @@ def _specs() -> Dict[str, Dict[str, Any]]:
                "height, kernel aggregates, backward-thread linking) and against the first build of the same session. "
                "distinct_nontrivial = distinct event-log digests among runs with at least one checked build")
     cg_assume = GENERATOR_ASSUMPTIONS + [
-        "the parent of a host event is taken from the tool (that is C03's subject); worlds contain no zero-duration events, for which C03 is known to be wrong on the pinned tree",
+        "the parent of a host event is taken from the tool (that is C03's subject); zero-duration host events, for which C03 is known to be wrong on the pinned tree, occur only as isolated top-level operators of the autograd thread at the closing instant of a backward window",
         "sync events on stream -1 are left out of the device-parent clause",
     ]
     specs["C13"] = {
@@ -145,7 +145,7 @@ def _specs() -> Dict[str, Dict[str, Any]]:
                     {"name": "big", "args": {"big": True}, "runs": {"quick": 12, "thorough": 1500}},
                     {"name": "faults", "args": {"faulty": True}, "runs": {"quick": 60, "thorough": 6000}}],
         "rule": cg_rule + "; C16: the returned pattern table (patterns, counts, CPU / GPU durations, row order) is recomputed from the tool's own tree for the same arguments, and the n-th call must equal the first call with the same arguments; fault batch: ENOSPC / EIO inside the write of the overlay file",
-        "assumptions": cg_assume + ["operator names are chosen so that they match host operator names only",
+        "assumptions": cg_assume + ["operator names are chosen so that they match host operator names only (some worlds carry names with glob / regex / NA / separator syntax, asked for verbatim)",
                                     "runs in which two kernels of one operator start at the same instant under different names are skipped (either order is allowed)"],
         "expected_probes": ["patterns_found", "repeated_call_same_arguments", "second_build",
                             "more_than_127_kernels_under_one_operator"],
